@@ -43,8 +43,13 @@ def infra(msg):
 
 
 def load_index():
-    with open(os.path.join(LEAN, 'props_index.json')) as f:
-        return json.load(f)
+    out = {}
+    d = os.path.join(LEAN, 'index')
+    for fn in sorted(os.listdir(d)):
+        if fn.endswith('.json'):
+            with open(os.path.join(d, fn)) as f:
+                out[fn[:-5]] = json.load(f)
+    return out
 
 
 def strip_comments(src):
@@ -184,7 +189,7 @@ def main():
     t0 = time.time()
     index = load_index()
     if pid not in index:
-        infra('no such property in props_index.json: ' + pid)
+        infra('no lean/index/%s.json' % pid)
     entry = index[pid]
     rep = core.Report(pid, a.tier, seed)
     lean_broken = None       # text describing a proof obligation that no longer checks
@@ -270,6 +275,9 @@ def main():
     for kind, sig, msg, case, impl, model in violations:
         if (kind, sig) in seen_v:
             continue
+        if len(seen_v) >= 8:
+            rep.notes.append('more distinct violation signatures than reported lines')
+            break
         seen_v.add((kind, sig))
         payload = {'property': pid, 'kind': kind, 'signature': sig, 'message': msg, 'seed': seed,
                    'tier': a.tier, 'case': case, 'impl_outcome': impl, 'model_outcome': model}
